@@ -39,6 +39,10 @@ def programs():
       'subtest': program([subtest('sub1', [P('a1', plugs=('x',)), P('b1')]), P('c1')]),
       'start': program([P('p1', plugs=('x',)), group('g1', [], [P('m1')], [P('t1')])], start=P('st')),
       # the last setup node is itself a group: an abort during its (protected) teardown leaves setup complete
+      # like 'group', but the main body ignores the kill for a while (blocked in C code, slow cleanup):
+      # the executor abandons it and the group's teardown must still run
+      'stubborn': program([group('g1', [P('s1')], [P('m1', plugs=('x',)), P('m2')], [P('t1'), P('t2')]),
+                           P('after')]),
       'nested': program([group('g1', [P('s1', plugs=('x',)), group('g0', [], [P('sm')], [P('t0')])],
                                [P('m1')], [P('t1')]), P('after')]),
   }
@@ -50,6 +54,7 @@ def programs():
 # body started.
 GROUPS = {
     'group': [(('s1',), 'm1', ('t1', 't2'))],
+    'stubborn': [(('s1',), 'm1', ('t1', 't2'))],
     'start': [((), 'm1', ('t1',))],
     'nested': [((), 'sm', ('t0',)), (('s1', 'sm', 't0'), 'm1', ('t1',))],
 }
@@ -58,6 +63,7 @@ GROUPS = {
 SCRIPTS = {
     'plain': {'p1': 'C', 'p2': 'C', 'p3': 'C'},
     'group': {'s1': 'C', 'm1': 'C', 'm2': 'C', 't1': 'C', 't2': 'C', 'after': 'C'},
+    'stubborn': {'s1': 'C', 'm1': 'C', 'm2': 'C', 't1': 'C', 't2': 'C', 'after': 'C'},
     'repeat': {'r1': 'RRC', 'q1': 'C'},
     'subtest': {'a1': 'C', 'b1': 'C', 'c1': 'C'},
     'start': {'st': 'C', 'p1': 'C', 'm1': 'C', 't1': 'C'},
@@ -80,6 +86,16 @@ def make_run(prog_name, source, naborts):
       ctx = build.Ctx(script)
 
       def body_hook(c, name, api, b):
+        if prog_name == 'stubborn' and name == 'm1':
+          import time
+          from openhtf.util import threads as _threads
+          t_end = time.time() + 8
+          while time.time() < t_end:        # swallows the kill and carries on for 8 (virtual) seconds
+            try:
+              time.sleep(0.5)
+            except _threads.ThreadTerminationError:
+              pass
+          return
         sched.point('body')
         sched.point('body')
       ctx.hooks['body'] = body_hook
@@ -185,7 +201,7 @@ def judge(prog_name, naborts, box, failure):
   open_bodies = set()
   for e in ev:
     if e[0] == 'body':
-      if open_bodies:
+      if open_bodies and prog_name != 'stubborn':     # an abandoned body keeps running beside the teardown by design
         bad.append('two phase bodies of one test run at once')
       open_bodies.add((e[1], e[2]))
     elif e[0] == 'body_end':
@@ -348,7 +364,7 @@ def main(chk):
   jobs = []
   combos = [('group', 'sigint', 1), ('group', 'thread', 1), ('plain', 'sigint', 1), ('group', 'sigint', 2),
             ('repeat', 'thread', 1), ('start', 'sigint', 1), ('subtest', 'thread', 1), ('nested', 'thread', 1),
-            ('group', 'thread', 2), ('nested', 'thread', 2)]
+            ('group', 'thread', 2), ('nested', 'thread', 2), ('stubborn', 'thread', 1)]
   bound = 1
   cap = 6000 if quick else 60000
   for prog_name, source, n in combos:
